@@ -21,7 +21,24 @@ def translators(repo):
         except Exception as e:
             info["ok"] = False
             info["err"] = "unparsable summary: %s" % e
-    return {"gen_bool_ast": info}
+    out = {"gen_bool_ast": info}
+    # the comparison shapes instantiated through the expression machinery (Generated/ExprAst.lean: eqmod / neqmod functors, the resolved
+    # store / load / elt_count / is_eqmod of expr::operator bool; Proofs/ExprAstEq2.lean, Properties/C07Ast2.lean) are re-translated too
+    for script in ("gen_ops_ast.py", "gen_simd_ast.py", "gen_expr_ast.py"):
+        r = cl.run(["python3", os.path.join(cl.HERE, script), "--repo", repo])
+        i2 = {"ok": r.returncode == 0}
+        if r.returncode != 0:
+            i2["err"] = (r.stdout + r.stderr)[-2000:]
+        else:
+            try:
+                i2.update(json.loads(r.stdout.strip().splitlines()[-1]))
+                i2.pop("node_kinds", None)
+            except Exception as e:
+                if script == "gen_expr_ast.py":
+                    i2["ok"] = False
+                    i2["err"] = "unparsable summary: %s" % e
+        out[script[:-3]] = i2
+    return out
 
 
 def streams(ctx, res):
